@@ -66,16 +66,16 @@ HARNESSES = [
 ]
 
 # ---- one base class (thorough tier only): class B { special members }; class A : public B { [void f();] int m; } ----------
-_BASE_LOOPS = dict(_LOOPS, **{'harness_c10_base.0': 20, 'harness_c10_base.1': 20, '_ZL10check_pairii.0': 50, '_ZL10check_pairii.1': 50,
+_BASE_LOOPS = dict(_LOOPS, **{'ll_strlen.0': 48, 'll_memcmp.0': 48, 'harness_c10_base.0': 20, 'harness_c10_base.1': 20, '_ZL10check_pairii.0': 50, '_ZL10check_pairii.1': 50,
                               '_ZL10check_pairii.2': 50, '_ZL10check_pairii.3': 50})
 
 
-def _hb(hid, desc, defs, cap=2400):
-    return {'id': hid, 'property': 'C10', 'src': 'c10_base.cxx', 'entry': 'harness_c10_base', 'tus': _TUS, 'cut': _CUT,
+def _hb(hid, desc, defs, cap=2400, tiers=('thorough',)):
+    return {'id': hid, 'property': 'C10', 'src': 'c10_base.cxx', 'entry': 'harness_c10_base', 'tus': _TUS + [_P + 'cppPointerType.cxx'], 'cut': _CUT,
             # get_virtual_funcs names the inherited function through CPPNameComponent::get_name_with_templ, which builds the
             # name in a std::ostringstream: opaque stream model, TUs lowered with -fno-inline (see cat/c06.py)
             'skip_ctors': _SKIP, 'models': ['list.c', 'c10_list.c', 'noinline.c'], 'tuflags': ['-fno-inline', '-fno-pic'],
-            'tiers': ('thorough',),
+            'tiers': tiers,
             'desc': desc, 'oracle': _ORACLE.replace('c10_oracle.h', 'c10_oracle.h (c10d_*)'),
             'domain': 'class B with special members as in the single-class harnesses (kinds by concrete loops, access symbolic) and '
                       'class A : public B declaring no special member; here: ' + desc,
@@ -83,9 +83,9 @@ def _hb(hid, desc, defs, cap=2400):
 
 
 HARNESSES += [
-    _hb('c10_base_pv', 'B abstract (pure virtual f, no other special member); A with and without the overrider void f()',
-        {'PRESENCE': _presence(8), 'OVERRIDES': 3}),
-    _hb('c10_base_pv2', 'B abstract with one more special member; A with and without the overrider void f()',
+    _hb('c10_base_pv', 'B abstract (pure virtual f, no other special member); A without f, or overriding it with the same / an '
+        'identical pointer / a covariant return type', {'PRESENCE': _presence(8), 'OVERRIDES': 15}, cap=600, tiers=('quick', 'thorough')),
+    _hb('c10_base_pv2', 'B abstract with one more special member (incl. a pure virtual destructor); A with and without the overrider',
         {'PRESENCE': _presence(9, 12), 'OVERRIDES': 3}),
     _hb('c10_base_one', 'B with at most one special member, A without f', {'PRESENCE': _presence(0, 1, 2, 4), 'OVERRIDES': 1}),
     _hb('c10_base_two', 'B with two special members, A without f', {'PRESENCE': _presence(3, 5, 6), 'OVERRIDES': 1}),
